@@ -151,72 +151,148 @@ func ownRule(c *Ctx, rule string, scope func(*ssa.Function) bool) *Own {
 
 func checkC27(c *Ctx) {
 	c.Rule("C27.own", "ownership of constant storage (module-wide byte-slice ownership analysis with parameter summaries): nothing writes through Const.bs / Const.Bytes() or keeps such bytes in storage that is modified later")
-	c.Rule("C27.fresh", "expr.newConst is called only with fresh storage (make / literal) or with a slice of another constant's storage; an exported constructor never stores the caller's slice itself")
+	c.Rule("C27.fresh", "whatever gives a Const its storage (a store to Const.bs, followed through unexported helpers to their call sites and through package functions to what they return) stores fresh storage (make / literal) or a slice of another constant's storage; an exported function never stores the caller's slice itself; nothing outside pkg/expr assigns Const.bs")
 	c.Rule("C27.encode", "NewConstUint/NewConstInt fill a fresh w-byte slice in a range loop with byte(val) at the loop index and val >>= 8 per step (little-endian two's complement)")
 	c.Rule("C27.range", "decision table by path enumeration behind the encoding loop: NewConstUint panics exactly when the shifted-out rest is non-zero; NewConstInt panics exactly when the rest is not the sign extension of the top stored byte (rest==0 with top<128, or rest==-1 with top>=128)")
 	all := func(fn *ssa.Function) bool { return true }
 	ownRule(c, "C27.own", all)
 	checkConstRange(c)
-	nc := anchor(c, "pkg/expr.newConst")
-	if nc == nil {
-		return
-	}
-	o := NewOwn(c.Prog)
-	n := 0
-	for _, fn := range c.Prog.FuncsIn(ExprPkg) {
-		if fn.Blocks == nil {
-			continue
-		}
-		for i, cs := range CallsTo(fn, nc) {
-			if fn.Origin() != nil {
-				continue
-			}
-			n++
-			key := fmt.Sprintf("%s/newConst#%d", ShortName(fn), i+1)
-			bad := ""
-			for _, or := range o.Origins(cs.Common().Args[0]) {
-				switch or.Kind {
-				case OFresh:
-				case OField:
-					if !(or.Field.Name() == "bs") {
-						bad = "storage taken from field " + or.Field.Name()
-					}
-				case OParam:
-					bad = "the caller's slice (parameter " + or.Param.Name() + ") becomes the constant's storage without a copy: the constant changes when the caller later modifies its bytes"
-				case OCall:
-					if f := or.Call.Call.StaticCallee(); f != nil && FuncNameIs(f, "(pkg/expr.Const).Bytes") {
-						continue
-					}
-					bad = "storage comes from " + or.String()
-				default:
-					bad = "storage of unknown origin"
-				}
-			}
-			c.Oblige("C27.fresh", key, c.Prog.Pos(cs.Pos()), bad == "", bad)
-		}
-	}
-	// package-level constants Zero / One are built from literals: init
-	c.RequireCount("C27.fresh newConst call sites", n, 4)
-	// only newConst builds a Const (no composite literal elsewhere)
 	cn := c.Prog.LookupType(ExprPkg, "Const")
 	bsF := FieldByName(cn, "bs")
 	if bsF == nil {
 		c.Undecide("C27: field Const.bs does not resolve")
 		return
 	}
+	o := NewOwn(c.Prog)
+	// every place that gives a Const its storage: a store to the field bs (in a
+	// constructor helper or a composite literal). The stored slice must be
+	// fresh, or a slice of another constant's storage; when it is a parameter
+	// of an unexported function the rule moves to that function's call sites,
+	// when it is the result of a function of the package to what that returns.
+	callSites := map[*ssa.Function][]*ssa.Call{}
+	for _, fn := range c.Prog.Funcs() {
+		for _, cs := range Calls(fn) {
+			if call, ok := cs.Instr.(*ssa.Call); ok {
+				if g := Callee(cs.Common()); g != nil {
+					callSites[Origin(g)] = append(callSites[Origin(g)], call)
+				}
+			}
+		}
+	}
+	var judge func(v ssa.Value, fn *ssa.Function, depth int) string
+	judge = func(v ssa.Value, fn *ssa.Function, depth int) string {
+		if depth > 6 {
+			return "storage of unknown origin"
+		}
+		for _, or := range o.Origins(v) {
+			switch or.Kind {
+			case OFresh:
+			case OField:
+				if or.Field.Name() != "bs" {
+					return "storage taken from field " + or.Field.Name()
+				}
+			case OParam:
+				pf := or.Param.Parent()
+				if pf == nil || token.IsExported(Origin(pf).Name()) || pf.Signature.Recv() != nil {
+					return "the caller's slice (parameter " + or.Param.Name() + ") becomes the constant's storage without a copy: the constant changes when the caller later modifies its bytes"
+				}
+				idx := -1
+				for i, q := range pf.Params {
+					if q == or.Param {
+						idx = i
+					}
+				}
+				sites := callSites[Origin(pf)]
+				if idx < 0 || len(sites) == 0 {
+					return "storage of unknown origin (parameter " + or.Param.Name() + " of " + ShortName(pf) + ")"
+				}
+				for _, call := range sites {
+					if call.Parent() == nil || PkgPathOf(call.Parent()) != ExprPkg {
+						continue
+					}
+					if call.Parent().Origin() != nil {
+						continue // instantiations repeat their generic body
+					}
+					if idx < len(call.Call.Args) {
+						if why := judge(call.Call.Args[idx], call.Parent(), depth+1); why != "" {
+							return why + " (through " + ShortName(pf) + " called at " + c.Prog.Pos(call.Pos()) + ")"
+						}
+					}
+				}
+			case OCall:
+				f := or.Call.Call.StaticCallee()
+				if f != nil && FuncNameIs(f, "(pkg/expr.Const).Bytes") {
+					continue
+				}
+				g := f
+				if g != nil && g.Blocks == nil {
+					g = Origin(g)
+				}
+				if g == nil || g.Blocks == nil || PkgPathOf(g) != ExprPkg {
+					return "storage comes from " + or.String()
+				}
+				// what the function returns (the byte-slice results)
+				for _, b := range g.Blocks {
+					ret, ok := b.Instrs[len(b.Instrs)-1].(*ssa.Return)
+					if !ok {
+						continue
+					}
+					for _, r := range ret.Results {
+						if !isByteSlice(r.Type()) {
+							continue
+						}
+						if why := judge(r, g, depth+1); why != "" {
+							return why + " (returned by " + ShortName(g) + ")"
+						}
+					}
+				}
+			default:
+				return "storage of unknown origin"
+			}
+		}
+		return ""
+	}
+	n := 0
+	for _, fn := range c.Prog.FuncsIn(ExprPkg) {
+		if fn.Blocks == nil || fn.Origin() != nil {
+			continue
+		}
+		ord := 0
+		for _, b := range fn.Blocks {
+			for _, in := range b.Instrs {
+				st, ok := in.(*ssa.Store)
+				if !ok {
+					continue
+				}
+				fa, ok := st.Addr.(*ssa.FieldAddr)
+				if !ok || !SameField(FieldOf(fa), bsF) {
+					continue
+				}
+				n++
+				ord++
+				why := judge(st.Val, fn, 0)
+				c.Oblige("C27.fresh", fmt.Sprintf("%s/Const.bs=#%d", ShortName(fn), ord), c.Prog.Pos(st.Pos()), why == "", why)
+			}
+		}
+	}
+	c.RequireCount("C27.fresh places that give a Const its storage", n, 1)
+	// nothing outside pkg/expr builds a Const
 	bad := ""
 	for _, fn := range c.Prog.Funcs() {
+		if PkgPathOf(fn) == ExprPkg {
+			continue
+		}
 		for _, b := range fn.Blocks {
 			for _, in := range b.Instrs {
 				if st, ok := in.(*ssa.Store); ok {
-					if fa, ok := st.Addr.(*ssa.FieldAddr); ok && SameField(FieldOf(fa), bsF) && !FuncNameIs(fn, "pkg/expr.newConst") {
+					if fa, ok := st.Addr.(*ssa.FieldAddr); ok && SameField(FieldOf(fa), bsF) {
 						bad = ShortName(fn) + " at " + c.Prog.Pos(st.Pos())
 					}
 				}
 			}
 		}
 	}
-	c.Oblige("C27.fresh", "only-newConst-writes-Const.bs", c.Prog.Pos(bsF.Pos()), bad == "", "Const.bs is assigned in "+bad)
+	c.Oblige("C27.fresh", "only-pkg-expr-writes-Const.bs", c.Prog.Pos(bsF.Pos()), bad == "", "Const.bs is assigned in "+bad)
 }
 
 // checkConstRange: C27.encode and C27.range for every built body of
@@ -234,19 +310,36 @@ func checkConstRange(c *Ctx) {
 		n++
 		key := ShortName(fn)
 		pos := c.Prog.FuncPos(fn)
-		// the encoding loop
+		// the encoding loop: in the constructor itself or in a helper of the
+		// package that it hands its value and width to
 		var loop *RangeLoop
 		var ms *ssa.MakeSlice
-		for _, l := range RangeLoops(fn) {
-			if m, ok := Unwrap(l.Over).(*ssa.MakeSlice); ok && !l.IsMap {
-				loop, ms = l, m
+		var loopFn *ssa.Function
+		var chain []*ssa.Call
+		sameP := InModulePkg(fn)
+		cand := []Site{{Fn: fn}}
+		for _, st := range DeepCalls(fn, sameP) {
+			call, ok := st.Instr.(*ssa.Call)
+			if !ok {
+				continue
+			}
+			g := call.Call.StaticCallee()
+			if g != nil && g.Blocks == nil {
+				g = Origin(g)
+			}
+			if g != nil && g.Blocks != nil && sameP(g) {
+				cand = append(cand, Site{Fn: g, Chain: append(append([]*ssa.Call(nil), st.Chain...), call)})
 			}
 		}
-		if loop == nil {
-			c.Fail("C27.encode", key, pos, "no range loop over a fresh byte slice: the bytes of the value are not produced one per index")
-			continue
+		for _, cd := range cand {
+			for _, l := range RangeLoops(cd.Fn) {
+				if m, ok := Unwrap(l.Over).(*ssa.MakeSlice); ok && !l.IsMap && loop == nil {
+					loop, ms, loopFn, chain = l, m, cd.Fn, cd.Chain
+				}
+			}
 		}
-		wOK := Unwrap(ms.Len) == ssa.Value(fn.Params[1]) || DependsOn(ms.Len, func(v ssa.Value) bool { return v == ssa.Value(fn.Params[1]) })
+		wOK := DependsOnVia(chain, ms.Len, sameP, func(v ssa.Value) bool { return v == ssa.Value(fn.Params[1]) }, nil)
+		_ = loopFn
 		// store bs[key] = byte(valPhi); valPhi' = valPhi >> 8
 		var valPhi *ssa.Phi
 		storeOK := false
@@ -289,7 +382,7 @@ func checkConstRange(c *Ctx) {
 						k, isK = ConstInt(bo.Y)
 					}
 					shiftOK = ok && bo.Op == token.SHR && bo.X == ssa.Value(valPhi) && isK && k == 8
-				} else if Unwrap(e) != ssa.Value(fn.Params[0]) {
+				} else if up, _ := Up(chain, Unwrap(e)); Unwrap(up) != ssa.Value(fn.Params[0]) {
 					storeOK = false
 				}
 			}
@@ -300,13 +393,20 @@ func checkConstRange(c *Ctx) {
 			continue
 		}
 		// decision table
+		var val *Valuation
+		rootOf := func(v ssa.Value) ssa.Value {
+			if val != nil {
+				return Unwrap(val.Root(v))
+			}
+			return Unwrap(v)
+		}
 		isTop := func(v ssa.Value) bool {
 			ld, ok := v.(*ssa.UnOp)
 			if !ok || ld.Op != token.MUL {
 				return false
 			}
 			ia, ok := ld.X.(*ssa.IndexAddr)
-			if !ok || Unwrap(ia.X) != ssa.Value(ms) {
+			if !ok || rootOf(ia.X) != ssa.Value(ms) {
 				return false
 			}
 			base, off := LinOff(ia.Index)
@@ -315,7 +415,7 @@ func checkConstRange(c *Ctx) {
 				return false
 			}
 			bi, isBi := call.Call.Value.(*ssa.Builtin)
-			return isBi && bi.Name() == "len" && Unwrap(call.Call.Args[0]) == ssa.Value(ms)
+			return isBi && bi.Name() == "len" && rootOf(call.Call.Args[0]) == ssa.Value(ms)
 		}
 		bad := ""
 		for _, rest := range []int64{0, -1, 1, -2, 200} {
@@ -323,7 +423,7 @@ func checkConstRange(c *Ctx) {
 				continue
 			}
 			for _, top := range []int64{0, 0x7f, 0x80, 0xff} {
-				val := &Valuation{Int: func(v ssa.Value) (int64, bool) {
+				val = &Valuation{Enter: SamePackage(fn), Int: func(v ssa.Value) (int64, bool) {
 					if v == ssa.Value(valPhi) {
 						return rest, true
 					}
@@ -332,13 +432,13 @@ func checkConstRange(c *Ctx) {
 					}
 					// len(bs) of the w-byte slice: the table is for w >= 1
 					if call, ok := v.(*ssa.Call); ok {
-						if bi, isBi := call.Call.Value.(*ssa.Builtin); isBi && bi.Name() == "len" && Unwrap(call.Call.Args[0]) == ssa.Value(ms) {
+						if bi, isBi := call.Call.Value.(*ssa.Builtin); isBi && bi.Name() == "len" && Unwrap(val.Root(call.Call.Args[0])) == ssa.Value(ms) {
 							return 4, true
 						}
 					}
 					return 0, false
 				}}
-				res := val.Walk(loop.Done, loop.Header)
+				res := val.Walk(fn.Blocks[0], nil)
 				if !res.OK {
 					bad = fmt.Sprintf("with rest=%d top byte=%#x the accept/reject decision cannot be followed: %s", rest, top, res.Why)
 					break
